@@ -144,7 +144,14 @@ func (t *WSTransport) Subscribe(ctx context.Context, req *common.Request, opts c
 	}
 
 	id := xid.New().String()
-	return conn.subscribe(ctx, id, req, handler)
+	cancel, err := conn.subscribe(ctx, id, req, handler)
+	if errors.Is(err, common.ErrConnectionClosed) {
+		// The connection was closed after getOrDial handed it out and before
+		// this subscription was registered on it: take a fresh one.
+		return t.Subscribe(ctx, req, opts, handler)
+	}
+
+	return cancel, err
 }
 
 // pingLoop sends periodic pings to all active connections and shuts down
